@@ -17,17 +17,23 @@
   * `C08_read_stream_obj_total`, `C08_read_file_total`   stream objects and `Torrent.read`.
   * `C08_parse_fuel`, `C08_parse_wrap`   the wrapped decoder never runs out of loop fuel and returns
                                 only what C05's `parse` returns.
+  * `C08_validate_documented`   C07's theorem `C07_validate_only_metainfo_error` (imported from
+                                Torf.Properties.C07) at `fs = noPath` *is* `ValidateDocumented`.
   * `C08_returned_validate`, `C08_returned_dump`, `C08_returned_dump_novalidate`   validate()/dump()
-                                of any torrent, with any number of frames left: ok or MetainfoError —
-                                the first two relative to `ValidateDocumented` (C07's not yet proved
-                                `C07_validate_no_internal_statement` at fs = noPath);
+                                of any torrent, with any number of frames left: ok or MetainfoError.
+                                The only hypothesis of the first two is `filesNotMapping t` (the
+                                class of the open finding D07f: `info['files']` is a mapping);
                                 `dump(validate=False)` needs no hypothesis at all.
+  * `C08_read_documented`       read_stream ∈ {ok (validated if asked), BdecodeError, MetainfoError}
+                                under the memory hypothesis (D08f) and `filesNotMapping` of the
+                                torrent that is built (D07f) — no fourth alternative left.
   * `C08_returned_dump_deep`    too deep for the frames left ⇒ MetainfoError (fix 19d011f, ex-D08g).
   * `C08_magnet_total`          from_string: ok, MagnetError or URLError for every string and oracle.
   * `C08_read_steps`            steps of the decoder ≤ 3·|bs| + 2.
   Partial: CPython's actual time and memory are measured by the harness, not proved.
 -/
 import Torf.Lemmas.Untrusted
+import Torf.Properties.C07
 namespace Torf.C08
 open Torf Torf.Bencode Torf.Untrusted
 
@@ -136,28 +142,81 @@ theorem C08_read_file_total (env : Env) (f : FileOutcome) (validate : Bool) :
     dsimp only
     split <;> simp_all
 
-/-- `validate()` of a torrent (in particular of every returned one): ok or MetainfoError —
-    relative to C07's statement about `validate` and outside finding D07f. -/
-theorem C08_returned_validate (hV : ValidateDocumented) (env : Env) (t : Items)
+/-- what `read_stream(b'd4:infod6:piecesllleeeee', validate=False)` returns: `pieces` is not decoded,
+    so its nesting is never checked on read -/
+def deepWitness : Items := [(.str "info", .dict [(.str "pieces", .list [.list [.list []]])])]
+
+/-- What C08 needs from C07 — `validate()` without a content path raises MetainfoError and nothing
+    else unless `info['files']` is a mapping — is C07's theorem `C07_validate_only_metainfo_error`
+    at `fs = noPath` (there `outsideD07f noPath md = filesNotMapping md`: the second half of D07f
+    needs a content path, and since /repo 3420ff7 there is no bound on numbers).  No hypothesis. -/
+theorem C08_validate_documented : ValidateDocumented := by
+  intro urlOk md e hf h
+  have ho : Validate.outsideD07f Validate.noPath md = true := by
+    simp [Validate.outsideD07f, hf, Validate.noPath]
+  rcases C07.C07_validate_only_metainfo_error urlOk Validate.noPath md ho with h' | h'
+  · rw [h'] at h; cases h
+  · rw [h'] at h; cases h; rfl
+
+/-- `validate()` of a torrent (in particular of every returned one): ok or MetainfoError, for
+    every metainfo, URL oracle and environment.  **Only remaining hypothesis:**
+    `filesNotMapping t` — `info['files']` is not a mapping, the class of the open finding D07f
+    (a mapping with `int` keys makes `validate` raise TypeError; a torrent that comes out of
+    `read_stream` can have a `files` mapping, but only with `str`/`bytes` keys, for which the code
+    answers MetainfoError — that case is evaluated by the driver on every run, not proved).
+    C07's statement about `validate` is no longer a hypothesis: `C08_validate_documented`. -/
+theorem C08_returned_validate (env : Env) (t : Items)
     (hf : Validate.filesNotMapping t = true) :
     validateT env t = .ok () ∨ validateT env t = .error .metainfo :=
-  validateT_doc hV env t hf
+  validateT_doc C08_validate_documented env t hf
 
-/-- `dump()` of a torrent: bytes or MetainfoError, however few frames are left. -/
-theorem C08_returned_dump (hV : ValidateDocumented) (env : Env) (t : Items)
+/-- `dump()` of a torrent: bytes or MetainfoError, however few frames are left (`env.encFuel`
+    arbitrary).  **Only remaining hypothesis:** `filesNotMapping t` (finding D07f), as for
+    `C08_returned_validate`. -/
+theorem C08_returned_dump (env : Env) (t : Items)
     (hf : Validate.filesNotMapping t = true) :
     (∃ b, dumpT env t true = .ok b) ∨ dumpT env t true = .error .metainfo :=
-  dumpT_validate hV env t hf
+  dumpT_validate C08_validate_documented env t hf
+
+/-- the hypothesis of `C08_returned_validate` / `C08_returned_dump` is necessary: on C07's D07f
+    witness (`files = {0: {…}}`) `validate()` raises TypeError -/
+example : Validate.filesNotMapping C07.d07fWitness = false ∧
+    errIs (validateT envSmallMem C07.d07fWitness) (.internal "TypeError") = true := by
+  decide +kernel
+
+/-- non-vacuity: a valid torrent and one that fails validation satisfy the hypothesis -/
+example : Validate.filesNotMapping C07.validWitness = true ∧
+    Validate.filesNotMapping deepWitness = true ∧
+    errIs (validateT envSmallMem deepWitness) .metainfo = true := by decide +kernel
+
+/-- **Reading untrusted bytes raises only documented errors**: `C08_read_total` with C07's theorem
+    plugged in.  For every environment, every byte string up to the read limit and both values of
+    `validate`: a torrent (which validates if validation was asked for), BdecodeError or
+    MetainfoError.  Remaining hypotheses, both classes of open findings:
+    * `¬ HitsMemoryWindow env bs` — the decoder does not reach a length prefix between the
+      allocator's limit and 2^63−34 (finding D08f; `C08_read_total_counterexample`);
+    * `filesNotMapping` of the torrent that `validate=False` returns for the same bytes (finding
+      D07f; only needed for `validate = true`). -/
+theorem C08_read_documented (env : Env) (bs : Bytes) (validate : Bool)
+    (hlen : bs.length ≤ env.maxSize) (hmem : ¬ HitsMemoryWindow env bs)
+    (hf : ∀ t, Untrusted.read env bs false = .ok t → Validate.filesNotMapping t = true) :
+    (∃ t, Untrusted.read env bs validate = .ok t ∧ (validate = true → validateT env t = .ok ())) ∨
+    Untrusted.read env bs validate = .error .bdecode ∨
+    Untrusted.read env bs validate = .error .metainfo := by
+  rcases C08_read_total env bs validate hlen hmem with h | h | h | ⟨hv, t, e, h1, h2, h3⟩
+  · exact .inl h
+  · exact .inr (.inl h)
+  · exact .inr (.inr h)
+  · subst hv
+    rcases C08_returned_validate env t (hf t h1) with h' | h'
+    · rw [h'] at h2; cases h2
+    · rw [h'] at h2; cases h2; exact .inr (.inr h3)
 
 /-- `dump(validate=False)`: bytes or MetainfoError for every metainfo (non-UTF-8 keys, any types,
     any nesting) and every number of frames — no hypothesis about `validate`. -/
 theorem C08_returned_dump_novalidate (env : Env) (t : Items) :
     (∃ b, dumpT env t false = .ok b) ∨ dumpT env t false = .error .metainfo :=
   dumpT_novalidate env t
-
-/-- what `read_stream(b'd4:infod6:piecesllleeeee', validate=False)` returns: `pieces` is not decoded,
-    so its nesting is never checked on read -/
-def deepWitness : Items := [(.str "info", .dict [(.str "pieces", .list [.list [.list []]])])]
 
 /-- Nesting beyond the frames that are left is reported as MetainfoError (fix 19d011f; before it
     the RecursionError escaped: former finding D08g). -/
